@@ -9,7 +9,7 @@ pub static OUT_FD: AtomicI32 = AtomicI32::new(-1);
 pub static SEQ: AtomicU64 = AtomicU64::new(1);
 
 pub struct Ev {
-    buf: [u8; 448],
+    buf: [u8; 2048],
     n: usize,
 }
 
@@ -17,7 +17,7 @@ impl Ev {
     #[inline]
     pub fn new(name: &str) -> Ev {
         let seq = SEQ.fetch_add(1, Ordering::SeqCst);
-        let mut e = Ev { buf: [0; 448], n: 0 };
+        let mut e = Ev { buf: [0; 2048], n: 0 };
         e.raw(b"{\"seq\":");
         e.num(seq);
         e.raw(b",\"tid\":");
